@@ -231,7 +231,7 @@ def run_property(prop: str, tier: str = "quick", replay: Optional[str] = None, t
                        "samples": samples, "bound": "seeded random small-scope inputs, %d per contract" % budget}
 
     # functions the engine could not decide: escalate the native search on them before giving up
-    if suite is not None and limits:
+    if suite is not None and limits and os.environ.get("PYVC_NATIVE_BUDGET") != "0":
         undecided_fns = sorted(set(l.split(":")[0] for l in limits))
         for fnq in undecided_fns:
             ev2, d2, fails2, _ = suite.run(REG, seed + 1, 3000 if tier == "quick" else 30000, only=fnq)
@@ -278,7 +278,7 @@ def run_property(prop: str, tier: str = "quick", replay: Optional[str] = None, t
                                             norm_name(r.name) in set(norm_name(n) for n in ledger["obligation_names"]))
         # look for a concrete failing input on the real code
         concrete = None
-        if suite is not None:
+        if suite is not None and os.environ.get("PYVC_NATIVE_BUDGET") != "0":  # "0": no native runs at all (see specs/c16.py)
             fn_tail = r.func.split("[")[0].split("<")[0]
             ev2, d2, fails2, _ = suite.run(REG, seed, 2000 if tier == "quick" else 20000, only=fn_tail)
             if fails2:
